@@ -13,7 +13,7 @@ open RbModel RbModel.Num RbModel.Proc RbModel.Proc.Compile RbModel.Proc.Vm
 open RbModel.Ast (Pos)
 
 mutual
-theorem eWfB_sound (sg : Sigs) (sl : List Ty) : ∀ e, eWfB sg sl e = true → EWf sg sl e
+theorem eWfB_sound (sg : Sigs) (sl : SlotTabs) : ∀ e, eWfB sg sl e = true → EWf sg sl e
   | .lit _ _, _ => trivial
   | .var x t _, h => by simpa [eWfB, EWf] using h
   | .un _ e _, h => by
@@ -30,7 +30,7 @@ theorem eWfB_sound (sg : Sigs) (sl : List Ty) : ∀ e, eWfB sg sl e = true → E
     simp only [eWfB, Bool.and_eq_true, decide_eq_true_eq] at h
     simp only [EWf]
     exact ⟨h.1, aWfB_sound sg sl args h.2⟩
-theorem aWfB_sound (sg : Sigs) (sl : List Ty) : ∀ a, aWfB sg sl a = true → AWf sg sl a
+theorem aWfB_sound (sg : Sigs) (sl : SlotTabs) : ∀ a, aWfB sg sl a = true → AWf sg sl a
   | .nil, _ => trivial
   | .cons e _ pt rest, h => by
     simp only [aWfB, Bool.and_eq_true, Bool.or_eq_true, Bool.not_eq_true', decide_eq_true_eq] at h
@@ -42,7 +42,7 @@ theorem aWfB_sound (sg : Sigs) (sl : List Ty) : ∀ a, aWfB sg sl a = true → A
     · exact h2
 end
 
-theorem itemsWfB_sound (sg : Sigs) (sl : List Ty) : ∀ items, itemsWfB sg sl items = true → ItemsWf sg sl items
+theorem itemsWfB_sound (sg : Sigs) (sl : SlotTabs) : ∀ items, itemsWfB sg sl items = true → ItemsWf sg sl items
   | [], _ => trivial
   | .expr e :: rest, h => by
     simp only [itemsWfB, Bool.and_eq_true] at h
@@ -65,7 +65,7 @@ theorem selRelOpB_sound (op : Op) (h : selRelOpB op = true) : SelRelOp op := by
   · exact .inr (.inr (.inr (.inr (.inl h))))
   · exact .inr (.inr (.inr (.inr (.inr h))))
 
-theorem caseWfB_sound (sg : Sigs) (sl : List Ty) : ∀ c, caseWfB sg sl c = true → CaseWf sg sl c
+theorem caseWfB_sound (sg : Sigs) (sl : SlotTabs) : ∀ c, caseWfB sg sl c = true → CaseWf sg sl c
   | .simple e, h => eWfB_sound sg sl e h
   | .is op e, h => by
     simp only [caseWfB, Bool.and_eq_true] at h
@@ -74,7 +74,7 @@ theorem caseWfB_sound (sg : Sigs) (sl : List Ty) : ∀ c, caseWfB sg sl c = true
     simp only [caseWfB, Bool.and_eq_true] at h
     exact ⟨eWfB_sound sg sl lo h.1, eWfB_sound sg sl hi h.2⟩
 
-theorem condsWfB_sound (sg : Sigs) (sl : List Ty) : ∀ cs, condsWfB sg sl cs = true → CondsWf sg sl cs
+theorem condsWfB_sound (sg : Sigs) (sl : SlotTabs) : ∀ cs, condsWfB sg sl cs = true → CondsWf sg sl cs
   | [], _ => trivial
   | c :: rest, h => by
     simp only [condsWfB, Bool.and_eq_true] at h
@@ -83,7 +83,7 @@ theorem condsWfB_sound (sg : Sigs) (sl : List Ty) : ∀ cs, condsWfB sg sl cs = 
 theorem isSkipB_sound : ∀ s, isSkipB s = true → s = .skip := by
   intro s h; cases s <;> first | rfl | cases h
 
-theorem readWfB_sound (sl : List Ty) : ∀ vars, readWfB sl vars = true → ∀ v ∈ vars, sl[v.1]? = some v.2.1
+theorem readWfB_sound (sl : SlotTabs) : ∀ vars, readWfB sl vars = true → ∀ v ∈ vars, sl.get? v.1 = some v.2.1
   | [], _, v, hv => by simp at hv
   | w :: rest, h, v, hv => by
     simp only [readWfB, Bool.and_eq_true, decide_eq_true_eq] at h
@@ -102,13 +102,21 @@ theorem ne_nil_of_not_isEmpty {α : Type} {l : List α} (h : (!l.isEmpty) = true
   intro hl; subst hl; simp at h
 
 mutual
-theorem wfB_sound (sg : Sigs) (sc : Scope) : ∀ s, wfB sg sc.slots sc.inProc s = true → Wf sg sc s
+theorem wfB_sound (sg : Sigs) (sc : Scope) : ∀ s, wfB sg sc.slots sc.inProc sc.self.isSome s = true → Wf sg sc s
   | .skip, _ => trivial
   | .comment, _ => trivial
   | .seq a b, h => by
     simp only [wfB, Bool.and_eq_true] at h
     exact ⟨wfB_sound sg sc a h.1, wfB_sound sg sc b h.2⟩
-  | .dim x t _, h => by simpa [wfB, Wf] using h
+  | .dim x t _, h => by
+    simp only [wfB, Bool.and_eq_true, decide_eq_true_eq, Bool.not_eq_true'] at h
+    refine ⟨h.1, ?_⟩
+    cases hs : sc.self with
+    | none => rfl
+    | some f => rw [hs] at h; simp at h
+  | .sdim x t _, h => by
+    simp only [wfB, Bool.and_eq_true, decide_eq_true_eq] at h
+    exact h
   | .assign x t e _, h => by
     simp only [wfB, Bool.and_eq_true, decide_eq_true_eq] at h
     exact ⟨h.1, eWfB_sound sg sc.slots e h.2⟩
@@ -146,12 +154,12 @@ theorem wfB_sound (sg : Sigs) (sc : Scope) : ∀ s, wfB sg sc.slots sc.inProc s 
     simp only [wfB, Bool.and_eq_true, decide_eq_true_eq] at h
     exact ⟨h.1, aWfB_sound sg sc.slots args h.2⟩
   | .exitProc _, h => by simpa [wfB, Wf] using h
-theorem wfElifsB_sound (sg : Sigs) (sc : Scope) : ∀ e, wfElifsB sg sc.slots sc.inProc e = true → WfElifs sg sc e
+theorem wfElifsB_sound (sg : Sigs) (sc : Scope) : ∀ e, wfElifsB sg sc.slots sc.inProc sc.self.isSome e = true → WfElifs sg sc e
   | .nil, _ => trivial
   | .cons c body rest, h => by
     simp only [wfElifsB, Bool.and_eq_true, decide_eq_true_eq] at h
     exact ⟨eWfB_sound sg sc.slots c h.1.1.1, h.1.1.2, wfB_sound sg sc body h.1.2, wfElifsB_sound sg sc rest h.2⟩
-theorem wfCasesB_sound (sg : Sigs) (sc : Scope) : ∀ cs, wfCasesB sg sc.slots sc.inProc cs = true → WfCases sg sc cs
+theorem wfCasesB_sound (sg : Sigs) (sc : Scope) : ∀ cs, wfCasesB sg sc.slots sc.inProc sc.self.isSome cs = true → WfCases sg sc cs
   | .nil, _ => trivial
   | .cons conds body rest, h => by
     simp only [wfCasesB, Bool.and_eq_true] at h
@@ -159,7 +167,7 @@ theorem wfCasesB_sound (sg : Sigs) (sc : Scope) : ∀ cs, wfCasesB sg sc.slots s
       wfCasesB_sound sg sc rest h.2⟩
 end
 
-theorem wfTopB_sound (sg : Sigs) (sc : Scope) : ∀ body, wfTopB sg sc.slots sc.inProc body = true → WfTop sg sc body := by
+theorem wfTopB_sound (sg : Sigs) (sc : Scope) : ∀ body, wfTopB sg sc.slots sc.inProc sc.self.isSome body = true → WfTop sg sc body := by
   refine top_induction ?_ ?_
   · intro a b iha ihb h
     simp only [wfTopB, Bool.and_eq_true] at h
@@ -199,10 +207,15 @@ theorem slotsOk_of_wfSlots (d : ProcDecl SStmt) (h : d.wfSlots = true) : SlotsOk
 
 theorem progWfB_sound (prog : SProgram) (h : progWfB prog = true) : ProgWf prog := by
   simp only [progWfB, Bool.and_eq_true, List.all_eq_true] at h
-  refine ⟨wfTopB_sound _ _ _ h.1, ?_⟩
+  refine ⟨wfTopB_sound _ (mainScope prog) _ h.1, ?_⟩
   intro f d hd
   have hm : d ∈ prog.procs := List.mem_of_getElem? hd
   have := h.2 d hm
-  exact ⟨slotsOk_of_wfSlots d this.1, wfB_sound _ _ _ this.2⟩
+  refine ⟨slotsOk_of_wfSlots d this.1, wfB_sound _ (procScope prog.gslots f d) _ ?_⟩
+  have e : (procScope prog.gslots f d).self.isSome = d.static := by
+    simp only [procScope]
+    cases d.static <;> rfl
+  rw [e]
+  exact this.2
 
 end RbThm.ProcSim
